@@ -326,16 +326,20 @@ Section Variants.
   Variable proxy_fix : bool.     (* repaired code (66a7abc): Var.name renames the VarValue proxy on its own *)
   Variable topo : world -> list nid -> option (list nid).   (* networkx.topological_sort, oracle *)
 
-  Definition model_init (w : world) (ns : list nid) (vs : list vid) : world * result model :=
+  (* copy = true (Model(..., copy=True)): the checks and the wiring act on deep copies of the nodes; the
+     originals - which may belong to a live model - are left exactly as they are.  The returned model
+     lists the ids of the originals; the copies are the same graph, wired (see [copied_world]). *)
+  Definition model_init (copy : bool) (w : world) (ns : list nid) (vs : list vid) : world * result model :=
     if has_dup (map (name_of w) ns) then (w, Err DupNode)
     else if has_dup (map (vname_of w) vs) then (w, Err DupVar)
     else if has_dup (map (gname_of w) (groups_of w ns vs)) then (w, Err DupGroup)
-    else if existsb (inmodel_of w) ns then
+    else if negb copy && existsb (inmodel_of w) ns then
       ((if check_first then w else clear_until_inmodel w ns), Err InModel)
     else
       match topo w ns with
       | None => (w, Err Cycle)
-      | Some order => if is_topo w ns order then (wire w ns, Ok (mkM ns vs)) else (w, Err BadOrder)
+      | Some order =>
+        if is_topo w ns order then ((if copy then w else wire w ns), Ok (mkM ns vs)) else (w, Err BadOrder)
       end.
 
   Definition bind_closure (w : world) (rn : list nid) (rv : list vid)
@@ -351,7 +355,7 @@ Section Variants.
                        | None => [] end) vs.
 
   (* GraphBuilder.build_model (no auto-transform, no user-defined log-prob nodes) *)
-  Definition build (w : world) (rn : list nid) (rv : list vid) : world * result model :=
+  Definition build (copy : bool) (w : world) (rn : list nid) (rv : list vid) : world * result model :=
     bind_closure w rn rv (fun ns0 _ =>
     let w1 := if strip then strip_seeds w ns0 else w in
     bind_closure w1 rn rv (fun ns1 vs1 =>
@@ -376,11 +380,16 @@ Section Variants.
       bind_closure w5 rn5 rv (fun ns5 _ =>
       match fold_left add_seed_one ns5 (w5, Ok tt) with
       | (w6, Err e) => (w6, Err e)
-      | (w6, Ok _) => bind_closure w6 rn5 rv (fun ns6 vs6 => model_init w6 ns6 vs6)
+      | (w6, Ok _) => bind_closure w6 rn5 rv (fun ns6 vs6 => model_init copy w6 ns6 vs6)
       end))))
     end)).
 
 End Variants.
+
+(* the world in which the nodes of a built model are wired: the result world itself, or - for
+   copy=True - the copies, i.e. the same graph wired on its own *)
+Definition copied_world (copy : bool) (w' : world) (m : model) : world :=
+  if copy then wire w' (m_nodes m) else w'.
 
 (* Model.pop_nodes_and_vars : the nodes lose the model; the returned dict omits the _model* nodes *)
 Definition pop (w : world) (m : model) : world :=
@@ -396,8 +405,10 @@ Inductive mutation :=
 | MSetInputs (pos : list nid) (kw : list (string * nid))
 | MAddInputs (pos : list nid) (kw : list (string * nid))
 | MNeedsSeed (b : bool)
-| MOther.                     (* function, distribution, at, per_obs, observed, parameter, value_node,
-                                 dist_node: guarded the same way, effect not modelled *)
+| MValueNode (arg : nid)      (* var.value_node = <node>: also guarded by `value_node.model` of the ARGUMENT *)
+| MDistNode (arg : nid)       (* var.dist_node = <dist>: also guarded by `dist_node.model` of the argument *)
+| MOther.                     (* function, distribution, at, per_obs, observed, parameter: guarded by the
+                                 target's model only, effect not modelled *)
 
 (* Var.model is value_node.model *)
 Definition target_inmodel (w : world) (t : target) : bool :=
@@ -425,5 +436,14 @@ Definition do_mutation (pf : bool) (w : world) (t : target) (mu : mutation) : wo
   | _, _ => w
   end.
 
+(* a node handed to the value_node / dist_node setter would become part of the variable: it must not
+   belong to a model *)
+Definition arg_inmodel (w : world) (mu : mutation) : bool :=
+  match mu with
+  | MValueNode i => inmodel_of w i
+  | MDistNode i => inmodel_of w i
+  | _ => false
+  end.
+
 Definition mutate (pf : bool) (w : world) (t : target) (mu : mutation) : world * result unit :=
-  if target_inmodel w t then (w, Err Frozen) else (do_mutation pf w t mu, Ok tt).
+  if target_inmodel w t || arg_inmodel w mu then (w, Err Frozen) else (do_mutation pf w t mu, Ok tt).
